@@ -13,6 +13,7 @@ import (
 	"sort"
 	"strings"
 	"sync"
+	"sync/atomic"
 	"time"
 )
 
@@ -34,7 +35,7 @@ type memConn struct {
 	// controller-owned
 	sess        *zkSession
 	shaken      bool
-	dead        bool // owner process died / link cut for good: nothing flows any more
+	dead        atomic.Bool // owner process died / link cut for good: nothing flows any more
 	cliCloseSeen bool
 	lastUp      time.Duration
 	lastDown    time.Duration
@@ -190,7 +191,7 @@ func (n *Net) pump() bool {
 	s := n.s
 	progressed := false
 	for _, c := range n.snapshot() {
-		if c.dead {
+		if c.dead.Load() {
 			continue
 		}
 		// Frames written since the last quiescent point come from different goroutines of the
@@ -253,7 +254,7 @@ func (n *Net) sendUp(c *memConn, frame []byte) {
 	}
 	c.lastUp = at
 	s.at(at, "zk-req", func() {
-		if c.dead || c.srvClose {
+		if c.dead.Load() || c.srvClose {
 			return
 		}
 		if n.zkDown {
@@ -277,7 +278,7 @@ func (n *Net) sendDown(c *memConn, frame []byte) {
 	}
 	c.lastDown = at
 	s.at(at, "zk-resp", func() {
-		if c.dead {
+		if c.dead.Load() {
 			return
 		}
 		if n.blocked(c.host, "zk") {
@@ -291,7 +292,7 @@ func (n *Net) sendDown(c *memConn, frame []byte) {
 // flushHeld is called when a partition heals: TCP would retransmit what was in flight.
 func (n *Net) flushHeld() {
 	for _, c := range n.snapshot() {
-		if c.dead || n.blocked(c.host, "zk") {
+		if c.dead.Load() || n.blocked(c.host, "zk") {
 			continue
 		}
 		up, down := c.heldUp, c.heldDown
